@@ -110,6 +110,14 @@ def dec_index(e):
         return big[::2]
     if k == "arr":
         return np.array(e[1], dtype=e[2])
+    if k == "romask":  # read-only mask
+        a = np.array(e[1], dtype=bool)
+        a.flags.writeable = False
+        return a
+    if k == "roarr":  # read-only index array
+        a = np.array(e[1], dtype=e[2])
+        a.flags.writeable = False
+        return a
     if k == "list":
         return list(e[1])
     if k == "slice":
@@ -198,6 +206,8 @@ def gen_ops(m, pal, tier):
     if n >= 2:
         ops.append(["index", ["list", [n - 1, 0]]])
         ops.append(["index", ["arr", [1, 0], "uint8"]])
+        ops.append(["index", ["roarr", [n - 1, 0], "int64"]])
+        ops.append(["index", ["romask", [i != 1 for i in range(n)]]])
     for s in ([None, None, None], [1, None, None], [None, -1, None], [None, None, 2], [None, None, -1],
               [1, 3, None], [-2, None, None], [n, None, None], [5, None, None], [None, None, -2]):
         ops.append(["index", ["slice", s]])
@@ -731,12 +741,12 @@ def op_class(op, n):
     k = op[0]
     if k == "index":
         e = op[1]
-        if e[0] in ("mask", "smask"):
+        if e[0] in ("mask", "smask", "romask"):
             return "index_" + e[0]
         if e[0] == "slice":
             st = e[1][2]
             return "index_slice" + ("_negstep" if (st or 1) < 0 else "")
-        if e[0] in ("arr", "list"):
+        if e[0] in ("arr", "list", "roarr"):
             neg = any(x < 0 for x in e[1])
             srt = list(e[1]) == sorted(e[1])
             return "index_%s%s%s" % (e[0], "_neg" if neg else "", "" if srt else "_unsorted")
